@@ -13,18 +13,22 @@ bvars == <<e, d>>
 
 P == Prefix(Lib(1), "p")
 SmallGraph == <<
-   \* a 3-name library with one renamed export, a macro / procedure / tick around a private helper
+   \* a 3-name library with one renamed export; variables holding a heap value, a fixnum, a character; a macro /
+   \* procedure / tick around a private helper; bump assigns the variables
    [imports |-> <<>>,
-    defs |-> <<<<"a", "var">>, <<"pb", "var">>, <<"i", "var">>, <<"m", "mac">>, <<"h1", "priv">>, <<"g", "proc">>, <<"t", "tick">>>>,
+    defs |-> <<<<"a", "var", "list", 1>>, <<"pb", "var", "fix", 2>>, <<"i", "var", "char", 3>>, <<"m", "mac", "", 0>>,
+               <<"h1", "priv", "", 0>>, <<"g", "proc", "", 0>>, <<"t", "tick", "", 0>>, <<"bp", "bump", "", 0>>>>,
     exports |-> <<<<"a", "a">>, <<"pb", "pb">>, <<"o", "i">>>>],
-   \* imports it with a prefix, re-exports its renamed export under a third name, exports the other kinds
+   \* imports it with a prefix, re-exports its renamed export under a third name, reads an imported variable itself
    [imports |-> <<P>>,
-    defs |-> <<<<"a", "var">>, <<"t", "tick">>, <<"m", "mac">>, <<"h1", "var">>, <<"h2", "priv">>>>,
-    exports |-> <<<<"a", "a">>, <<"x", "po">>, <<"t", "t">>, <<"pm", "m">>>>],
-   \* a diamond: both libraries again, re-exporting one binding under two names
-   [imports |-> <<Only(Lib(1), <<"o">>), Rename(Only(Lib(2), <<"x", "t">>), <<<<"x", "y">>>>)>>,
-    defs |-> <<<<"g", "proc">>, <<"h3", "priv">>>>,
-    exports |-> <<<<"o", "o">>, <<"y", "y">>, <<"g", "g">>, <<"t2", "t">>>>] >>
+    defs |-> <<<<"a", "var", "bool", 4>>, <<"t", "tick", "", 0>>, <<"m", "mac", "", 0>>, <<"h1", "var", "list", 5>>,
+               <<"h2", "priv", "", 0>>, <<"r", "rd", "ppb", 0>>, <<"bp", "bump", "", 0>>>>,
+    exports |-> <<<<"a", "a">>, <<"x", "po">>, <<"t", "t">>, <<"pm", "m">>, <<"r", "r">>, <<"bp", "bp">>>>],
+   \* a diamond: both libraries again, one binding under two names, a reader through the re-export chain,
+   \* a relay that makes library 2 assign its variables
+   [imports |-> <<Only(Lib(1), <<"o">>), Rename(Only(Lib(2), <<"x", "t", "bp", "a">>), <<<<"x", "y">>, <<"a", "f">>>>)>>,
+    defs |-> <<<<"g", "proc", "", 0>>, <<"h3", "priv", "", 0>>, <<"rr", "rd", "y", 0>>, <<"rf", "rd", "f", 0>>, <<"rl", "relay", "bp", 0>>>>,
+    exports |-> <<<<"o", "o">>, <<"y", "y">>, <<"g", "g">>, <<"t2", "t">>, <<"rr", "rr">>, <<"rf", "rf">>, <<"rl", "rl">>, <<"f", "f">>>>] >>
 
 N(x) == NamesG(tab, x)
 W(x) == WFG(tab, x)
@@ -44,7 +48,7 @@ Wraps(x) == UNION {WrapsK(x, k) : k \in WKinds}
 
 BInit == /\ d = 0 /\ e \in {Lib(l) : l \in StartLibs}
 BNext == /\ d < MaxDepth /\ d' = d + 1 /\ e' \in Wraps(e)
-BuildSpec == BInit /\ RInit /\ [][BNext /\ UNCHANGED <<rvars, tab>>]_<<bvars, rvars, tab>>
+BuildSpec == BInit /\ RInit /\ [][BNext /\ UNCHANGED <<rvars, tab>>]_<<bvars, rvars, tab>>     \* (lcells, envs are not part of this machine)
 
 (* ---------------- laws of the specification itself ---------------- *)
 Univ(x) == LET B == GraphNamesG(tab) \cup Pool \cup Dom(x)
@@ -86,28 +90,77 @@ LawSwap == LET M == N(e)
                 IN /\ W(r) /\ DOMAIN R = D /\ R[a] = M[b] /\ R[b] = M[a]
                    /\ ~W(Rename(e, <<<<a, b>>>>))
 
-(* ---------------- the dynamic part on the same graph ---------------- *)
+(* ---------------- the dynamic part on the same graph ----------------
+   Second, operational formulation of what an importer holds (how an implementation does it, level by level):
+   an environment frame maps each imported identifier to a CELL found by looking the exported name up in the
+   exporting library's own frame - <<"loc", b>> (an alias of location b) - never to a value.  CopyImmediates = TRUE
+   is the tempting shortcut "an immutable import of an immediate constant cannot change, bind the value":
+   the model checker shows that SameLocation then fails as soon as the exporter assigns its variable. *)
+CONSTANTS CopyImmediates, MaxEnvs
+VARIABLES lcells,   \* lcells[l] : frame of the instantiated library l : identifier in its scope -> cell
+          envs      \* live importers created so far: [sets, immut, cells]
+ovars == <<lcells, envs>>
+NoCells == <<>>
+\* visible name -> exported name of the base library (the association list an import set resolves to)
+IdTab == [l \in Libs |-> [x \in {p[1] : p \in Rng(Graph[l].exports)} |-> <<l, x>>]]
+AList(x) == LET M == NamesG(IdTab, x) IN [n \in DOMAIN M |-> M[n][2]]
+IntOf(l, ext) == (CHOOSE p \in Rng(Graph[l].exports) : p[1] = ext)[2]
+Snap(cell, immut) == IF CopyImmediates /\ immut /\ cell[1] = "loc" /\ Kind(cell[2]) = "var" /\ Immediate(cell[2])
+                     THEN <<"copy", Cur(cell[2])>> ELSE cell
+ImportCells(x, immut) == LET A == AList(x) IN [n \in DOMAIN A |-> Snap(lcells[Base(x)][IntOf(Base(x), A[n])], immut)]
+MergeCells(sets, immut) == LET maps == [i \in DOMAIN sets |-> ImportCells(sets[i], immut)]
+                           IN [n \in UNION {DOMAIN maps[i] : i \in DOMAIN maps} |-> maps[CHOOSE i \in DOMAIN maps : n \in DOMAIN maps[i]][n]]
+OwnCells(l) == [n \in DefNames(l) |-> <<"loc", <<l, n>>>>]
+ReadCell(c) == IF c[1] = "loc" THEN Cur(c[2]) ELSE c[2]
+
 MCSets == { <<Lib(1)>>, <<Lib(2)>>, <<Lib(3)>>, <<Prefix(Lib(2), "q:"), Only(Lib(1), <<"o">>)>>,
-            <<Rename(Lib(3), <<<<"t2", "t">>>>), Only(Lib(2), <<"t">>)>> }
-MCNames == {"a", "o", "x", "y", "t", "t2", "q:t", "g", "m", "pm", "i", "h1"}
+            <<Rename(Lib(3), <<<<"t2", "t">>>>), Only(Lib(2), <<"t", "bp">>)>> }
+MCNames == {"a", "o", "x", "y", "t", "t2", "q:t", "g", "m", "pm", "i", "h1", "pb", "r", "rr", "rf", "rl", "bp", "q:bp", "q:r", "f"}
 Keep == UNCHANGED <<bvars, tab>>
-DoBegin == Keep /\ \E s \in MCSets : BeginImport(s)
-DoBody == Keep /\ \E l \in Libs : Body(l)
-DoEnd == Keep /\ EndImport
-DoRefer == Keep /\ \E n \in MCNames : Refer(n, Expected(Vis, ticks, n)[1], Expected(Vis, ticks, n)[2])
-DoDiscard == Keep /\ Discard
-RNext == DoBegin \/ DoBody \/ DoEnd \/ DoRefer \/ DoDiscard
-RunSpec == RInit /\ d = 0 /\ e = Lib(1) /\ [][RNext]_<<bvars, rvars, tab>>
-RunConstraint == \A l \in Libs : ticks[l] <= MaxTicks
+DoBegin == Keep /\ Len(envs) < MaxEnvs /\ UNCHANGED ovars /\ \E s \in MCSets : BeginImport(s)
+\* the library's frame: its own definitions and what its import declarations bring (libraries import immutably)
+DoBody == Keep /\ UNCHANGED envs /\ \E l \in Libs :
+             /\ Body(l)
+             /\ lcells' = [lcells EXCEPT ![l] = OwnCells(l) @@ MergeCells(Graph[l].imports, TRUE)]
+\* the importer is an environment (immutable import) or a program
+DoEnd == Keep /\ UNCHANGED lcells /\ EndImport
+              /\ \E im \in BOOLEAN : envs' = Append(envs, [sets |-> cur, immut |-> im, cells |-> MergeCells(cur, im)])
+DoRefer == Keep /\ UNCHANGED ovars /\ \E n \in MCNames : Refer(n, Expected(Vis, ticks, vers, n)[1], Expected(Vis, ticks, vers, n)[2])
+DoDiscard == Keep /\ UNCHANGED ovars /\ Discard
+\* somebody calls the bump procedure of an instantiated library
+DoBump == Keep /\ UNCHANGED ovars /\ \E l \in Libs :
+             /\ inst[l] = 1 /\ \E dd \in Rng(Graph[l].defs) : dd[2] = "bump"
+             /\ vers' = [vers EXCEPT ![l] = @ + 1] /\ UNCHANGED <<inst, ticks, phase, cur>>
+RNext == DoBegin \/ DoBody \/ DoEnd \/ DoRefer \/ DoDiscard \/ DoBump
+RunSpec == RInit /\ d = 0 /\ e = Lib(1) /\ lcells = [l \in Libs |-> NoCells] /\ envs = <<>>
+           /\ [][RNext]_<<bvars, rvars, tab, ovars>>
+RunConstraint == \A l \in Libs : ticks[l] <= MaxTicks /\ vers[l] <= MaxTicks
+
+\* THE aliasing invariant: every identifier that denotes a binding - in a program, an environment, a library that
+\* imported it through any chain of modifiers and re-exports - holds that location and reads its current value
+SameLocation ==
+   /\ \A k \in DOMAIN envs :
+         LET V == VisibleG(tab, envs[k].sets) IN
+         /\ DOMAIN envs[k].cells = DOMAIN V
+         /\ \A n \in DOMAIN V : ReadCell(envs[k].cells[n]) = Cur(V[n]) \/ Kind(V[n]) # "var"
+         /\ \A n \in DOMAIN V : envs[k].cells[n][1] = "loc" => envs[k].cells[n][2] = V[n]
+   /\ \A l \in Libs : inst[l] = 1 =>
+         /\ DOMAIN lcells[l] = DefNames(l) \cup DOMAIN ImportedG(SubSeq(tab, 1, l - 1), l)
+         /\ \A n \in DOMAIN lcells[l] :
+               LET b == BindInG(tab, l, n) IN
+               /\ Kind(b) = "var" => ReadCell(lcells[l][n]) = Cur(b)
+               /\ lcells[l][n][1] = "loc" => lcells[l][n][2] = b
 \* the batch formula used by the trace specification = referring to the names one at a time
-RECURSIVE SeqExpected(_, _, _)
-SeqExpected(vis, tk, ns) == IF ns = <<>> THEN <<>>
-                            ELSE <<Expected(vis, tk, Head(ns))>> \o SeqExpected(vis, After(vis, tk, Head(ns)), Tail(ns))
+RECURSIVE SeqExpected(_, _, _, _)
+SeqExpected(vis, tk, vs, ns) ==
+   IF ns = <<>> THEN <<>>
+   ELSE <<Expected(vis, tk, vs, Head(ns))>> \o
+        SeqExpected(vis, Bumped(tk, "tick", Effect(vis, Head(ns))), Bumped(vs, "ver", Effect(vis, Head(ns))), Tail(ns))
 LawBatch == phase = "ready" =>
                \A ns \in UNION {[1..k -> MCNames] : k \in 0..2} :
-                   BatchExpected(Vis, ticks, ns) = SeqExpected(Vis, ticks, ns)
-\* two importers of one library see one counter: the same binding under every visible name
+                   BatchExpected(Vis, ticks, vers, ns) = SeqExpected(Vis, ticks, vers, ns)
+\* two names for one binding behave alike: same value, same counter
 LawShared == phase = "ready" =>
-               \A n, m \in DOMAIN Vis : Vis[n] = Vis[m] => Expected(Vis, ticks, n) = Expected(Vis, ticks, m)
+               \A n, m \in DOMAIN Vis : Vis[n] = Vis[m] => Expected(Vis, ticks, vers, n) = Expected(Vis, ticks, vers, m)
 MCSetsWF == GraphWF /\ \A s \in MCSets : SetsWFG(tab, s)
 =============================================================================
